@@ -214,9 +214,9 @@ def run(ctx):
     jobs = {
         "states": dict(module="BulkStates", cfg="BulkStates.cfg"),
         "gen": dict(module="BulkLoad", cfg="BulkLoad_quick.cfg"),
-        "sim": dict(module="BulkLoad", cfg="BulkLoad_sim.cfg", simulate="num=%d" % (40 if quick else 300), depth=6, workers=1),
-        "sim4": dict(module="BulkLoad", cfg="BulkLoad_sim4.cfg", simulate="num=%d" % (20 if quick else 200), depth=5, workers=1),
-        "scaled": dict(module="BulkLoad", cfg="BulkLoad_scaled.cfg", simulate="num=%d" % (2 if quick else 12), depth=4, workers=1),
+        "sim": dict(module="BulkLoad", cfg="BulkLoad_sim.cfg", simulate="num=%d" % (12 if quick else 300), depth=6, workers=1),
+        "sim4": dict(module="BulkLoad", cfg="BulkLoad_sim4.cfg", simulate="num=%d" % (6 if quick else 200), depth=5, workers=1),
+        "scaled": dict(module="BulkLoad", cfg="BulkLoad_scaled.cfg", simulate="num=%d" % (1 if quick else 12), depth=4, workers=1),
         "waits": dict(module="BulkImpl", cfg="BulkImpl_waits.cfg" if quick else "BulkImpl_waits4.cfg"),
         "pinned": dict(module="BulkImpl", cfg="BulkImpl_pinned_a.cfg" if quick else "BulkImpl_pinned_full.cfg"),
         "pinned_m": dict(module="BulkImpl", cfg="BulkImpl_pinned_m.cfg"),
@@ -320,7 +320,7 @@ def run(ctx):
     if os.path.isdir("/dev/shm") and os.access("/dev/shm", os.W_OK):
         shm = tempfile.mkdtemp(prefix="verif_C18_", dir="/dev/shm")
     try:
-        ctx.harness(["bulk", "-j", "12", "-timeout", "120s"], input_path=inp, output_path=outp, timeout=3000,
+        ctx.harness(["bulk", "-j", "14", "-timeout", "120s"], input_path=inp, output_path=outp, timeout=3000,
                     env=(dict(TMPDIR=shm) if shm else None))
     finally:
         if shm:
